@@ -16,6 +16,7 @@ from myst_parser.config.main import (
 from myst_parser.mdit_to_docutils.sphinx_ import SphinxRenderer
 from myst_parser.mdit_to_docutils.transforms import (
     CollectFootnotes,
+    HideEmptyBlockQuotes,
     HideNestedTransitions,
     ResolveAnchorIds,
     SortFootnotes,
@@ -55,6 +56,7 @@ class MystParser(SphinxParser):
         return super().get_transforms() + [
             SortFootnotes,
             CollectFootnotes,
+            HideEmptyBlockQuotes,
             HideNestedTransitions,
             UniqueContentsIds,
             ResolveAnchorIds,
